@@ -1931,3 +1931,188 @@ Example exh_result :
   r_published (run Z.add exh_cf exh_hist) = true /\
   result_of exh_cf (fst (final (store0, []) exh_hist)) (run Z.add exh_cf exh_hist) = Some 64%Z.
 Proof. vm_compute. split; reflexivity. Qed.
+
+(* ================================================================== *)
+(* Part 10: the number of combiners                                     *)
+
+(* the first leaf of the right half of the combine point at heap position p *)
+Definition mid (k p : nat) : nat :=
+  let d := Nat.log2 (p + 1) in (p + 1 - 2 ^ d) * 2 ^ (k - d) + 2 ^ (k - d - 1).
+
+Lemma mid_pos k j u : j <= k -> u < 2 ^ (k - j) -> mid k (pos k j u) = u * 2 ^ j + 2 ^ (j - 1).
+Proof.
+  intros H1 H2. unfold mid. rewrite (pos_log2 k j u H2).
+  replace (k - (k - j)) with j by lia.
+  replace (pos k j u + 1 - 2 ^ (k - j)) with u by (unfold pos; pose proof (pow2_pos (k - j)); lia).
+  reflexivity.
+Qed.
+
+Lemma mid_odd j u : 1 <= j -> u * 2 ^ j + 2 ^ (j - 1) = (2 * u + 1) * 2 ^ (j - 1).
+Proof. intros H. rewrite (pow2_half j H). lia. Qed.
+
+Lemma odd_pow_inj : forall a b u v, (2 * u + 1) * 2 ^ a = (2 * v + 1) * 2 ^ b -> a = b /\ u = v.
+Proof.
+  induction a as [|a IH]; intros b u v H.
+  - destruct b as [|b]; [simpl in H; lia|]. rewrite pow2_S in H. simpl (2 ^ 0) in H.
+    set (t := (2 * v + 1) * 2 ^ b). assert ((2 * v + 1) * (2 * 2 ^ b) = 2 * t) by (unfold t; lia). lia.
+  - destruct b as [|b].
+    + rewrite pow2_S in H. simpl (2 ^ 0) in H.
+      set (t := (2 * u + 1) * 2 ^ a). assert ((2 * u + 1) * (2 * 2 ^ a) = 2 * t) by (unfold t; lia). lia.
+    + rewrite !pow2_S in H. destruct (IH b u v) as [-> ->]; [lia|auto].
+Qed.
+
+Lemma odd_decomp : forall m, 1 <= m -> exists j u, 1 <= j /\ m = (2 * u + 1) * 2 ^ (j - 1).
+Proof.
+  intros m. induction m as [m IH] using lt_wf_ind. intros Hm.
+  destruct (Nat.Even_or_Odd m) as [[h Hh]|[h Hh]].
+  - destruct (IH h ltac:(lia) ltac:(lia)) as [j [u [Hj Hu]]].
+    exists (S j), u. split; [lia|]. replace (S j - 1) with (S (j - 1)) by lia. rewrite pow2_S. lia.
+  - exists 1, h. split; [lia|]. simpl. lia.
+Qed.
+
+Lemma NoDup_map_inj_in {A B} (g : A -> B) (l : list A) :
+  (forall x y, In x l -> In y l -> g x = g y -> x = y) -> NoDup l -> NoDup (map g l).
+Proof.
+  induction l as [|a r IH]; intros Hinj Hnd; simpl; [constructor|].
+  inversion Hnd as [|? ? Hn Hr]; subst. constructor.
+  - intros Hin. apply in_map_iff in Hin. destruct Hin as [y [Hy1 Hy2]].
+    assert (y = a) by (apply Hinj; simpl; auto). subst. contradiction.
+  - apply IH; [|assumption]. intros x y Hx Hy. apply Hinj; simpl; auto.
+Qed.
+
+Section Count.
+Variable cf : cfg.
+Variable L : list leaf.
+Variable k : nat.
+Hypothesis Hcap : length L <= 2 ^ k.
+Let live := length L.
+Let n := internals (2 ^ k).
+
+Definition needed_list : list nat := filter (needed cf (2 ^ k) live) (seq 0 n).
+
+Lemma needed_list_NoDup : NoDup needed_list.
+Proof. apply NoDup_filter. apply seq_NoDup. Qed.
+
+Lemma in_needed_list p : In p needed_list <-> p < n /\ needed cf (2 ^ k) live p = true.
+Proof. unfold needed_list. rewrite filter_In, in_seq. split; intros [H1 H2]; split; auto; lia. Qed.
+
+(* with two or more live leaves: one combiner per live index 1 .. live-1 (the combine point whose
+   right half starts there), so live - 1 of them *)
+Lemma needed_count_many : 2 <= live -> length needed_list = live - 1.
+Proof.
+  intros Hl.
+  assert (Hmid : forall p, In p needed_list -> exists j u, 1 <= j /\ j <= k /\ u < 2 ^ (k - j) /\ p = pos k j u /\
+                                             mid k p = u * 2 ^ j + 2 ^ (j - 1) /\ mid k p < live).
+  { intros p Hp. apply in_needed_list in Hp. destruct Hp as [Hp1 Hp2].
+    destruct (pos_coords k p Hp1) as [j [u [A1 [A2 [A3 ->]]]]].
+    exists j, u. repeat split; try assumption.
+    - apply mid_pos; assumption.
+    - rewrite mid_pos by assumption.
+      apply (needed_iff cf L k Hcap j u A1 A2 A3) in Hp2. destruct Hp2 as [[_ [_ Hc]]|Hc]; [fold live in Hc; lia|exact Hc]. }
+  rewrite <- (map_length (mid k) needed_list).
+  rewrite <- (seq_length (live - 1) 1).
+  apply Nat.le_antisymm.
+  - apply NoDup_incl_length.
+    + (* mid is injective on the needed positions *)
+      apply NoDup_map_inj_in; [|apply needed_list_NoDup].
+      intros p q Hp Hq E.
+      destruct (Hmid p Hp) as [j [u [A1 [A2 [A3 [-> [A5 A6]]]]]]].
+      destruct (Hmid q Hq) as [j' [u' [B1 [B2 [B3 [-> [B5 B6]]]]]]].
+      rewrite A5, B5 in E. rewrite (mid_odd j u A1), (mid_odd j' u' B1) in E.
+      apply odd_pow_inj in E. destruct E as [E1 ->]. replace j' with j by lia. reflexivity.
+    + intros m Hm. apply in_map_iff in Hm. destruct Hm as [p [<- Hp]].
+      destruct (Hmid p Hp) as [j [u [A1 [A2 [A3 [-> [A5 A6]]]]]]].
+      apply in_seq. rewrite A5 in *. pose proof (pow2_pos (j - 1)). lia.
+  - apply NoDup_incl_length; [apply seq_NoDup|].
+    intros m Hm. apply in_seq in Hm.
+    destruct (odd_decomp m ltac:(lia)) as [j [u [Hj Hu]]].
+    assert (Hjk : j <= k).
+    { destruct (Nat.le_gt_cases j k) as [|Hgt]; [assumption|].
+      pose proof (Nat.pow_le_mono_r 2 k (j - 1) ltac:(lia) ltac:(lia)). fold live in Hcap. nia. }
+    assert (Hu2 : u < 2 ^ (k - j)).
+    { pose proof (pow2_split k j Hjk) as Hs. pose proof (pow2_half j Hj) as Hh. pose proof (pow2_pos (j - 1)).
+      fold live in Hcap. destruct (Nat.lt_ge_cases u (2 ^ (k - j))) as [|Hge]; [assumption|]. nia. }
+    apply in_map_iff. exists (pos k j u). split.
+    + rewrite mid_pos by assumption. rewrite mid_odd by assumption. lia.
+    + apply in_needed_list. split; [apply pos_internal; assumption|].
+      apply (needed_iff cf L k Hcap j u Hj Hjk Hu2). right. rewrite mid_odd by assumption. fold live. lia.
+Qed.
+
+
+Lemma needed_small p : live <= 1 -> p < n ->
+  (needed cf (2 ^ k) live p = true <-> p = 0 /\ c_has_zero cf = true /\ live = 1).
+Proof.
+  intros Hl Hp. destruct (pos_coords k p Hp) as [j [u [A1 [A2 [A3 ->]]]]]. unfold live in *.
+  rewrite (needed_iff cf L k Hcap j u A1 A2 A3). pose proof (pow2_pos (j - 1)).
+  split; [intros [G|G]; [exact G|lia]|intros G; left; exact G].
+Qed.
+
+Lemma needed_count_zero_singleton : c_has_zero cf = true -> 1 <= k -> live = 1 -> length needed_list = 1.
+Proof.
+  intros Hz Hk Hl.
+  assert (Hn : 0 < n) by (unfold n; rewrite internals_pow2; pose proof (pow2_ge2 k Hk); lia).
+  transitivity (length [0]); [|reflexivity]. apply Nat.le_antisymm.
+  - apply NoDup_incl_length; [apply needed_list_NoDup|].
+    intros p Hp. apply in_needed_list in Hp. destruct Hp as [H1 H2].
+    apply needed_small in H2; [|lia|assumption]. left. symmetry. apply H2.
+  - apply NoDup_incl_length; [repeat constructor; intros []|].
+    intros p [<-|[]]. apply in_needed_list. split; [exact Hn|]. apply needed_small; [lia|exact Hn|auto].
+Qed.
+
+Lemma needed_count_none : live = 0 \/ (live = 1 /\ c_has_zero cf = false) -> length needed_list = 0.
+Proof.
+  intros Hl. assert (Hi : incl needed_list []).
+  { intros p Hp. apply in_needed_list in Hp. destruct Hp as [H1 H2].
+    apply needed_small in H2; [|lia|assumption]. destruct H2 as [_ [Hz H1']]. destruct Hl as [Hl|[_ Hl]]; [lia|congruence]. }
+  destruct needed_list as [|x r]; [reflexivity|]. exfalso. apply (Hi x). left. reflexivity.
+Qed.
+
+End Count.
+
+Lemma filter_map_length {A B} (g : B -> bool) (h : A -> B) l :
+  length (filter g (map h l)) = length (filter (fun x => g (h x)) l).
+Proof. induction l as [|a r IH]; simpl; [reflexivity|]. destruct (g (h a)); simpl; rewrite IH; reflexivity. Qed.
+
+Definition is_some {A} (o : option A) : bool := match o with Some _ => true | None => false end.
+
+Lemma count_present (combs : list (option comb)) :
+  length (filter is_some combs) = length (filter (present combs) (seq 0 (length combs))).
+Proof.
+  induction combs as [|a r IH]; [reflexivity|].
+  cbn [length seq]. rewrite <- seq_shift. cbn [filter].
+  assert (Hr : length (filter (present (a :: r)) (map S (seq 0 (length r)))) = length (filter (present r) (seq 0 (length r)))).
+  { rewrite filter_map_length. reflexivity. }
+  unfold present at 1. cbn [nth_opt]. destruct a; cbn [is_some length]; rewrite IH, Hr; reflexivity.
+Qed.
+
+(* combiner_count: n live leaves use exactly n - 1 combiners; a singleton with a zero uses one; an empty
+   collection, or a singleton without zero, none *)
+Theorem combiner_count_number cf (L : list leaf) k combs :
+  length L <= 2 ^ k -> (c_has_zero cf = true -> 1 <= k) -> wf_presence cf L k combs ->
+  length (filter is_some combs) =
+    if 2 <=? length L then length L - 1
+    else if c_has_zero cf && (length L =? 1) then 1 else 0.
+Proof.
+  intros Hcap Hz [Hlen Hpres]. rewrite count_present. rewrite Hlen.
+  assert (He : filter (present combs) (seq 0 (internals (2 ^ k))) = needed_list cf L k).
+  { unfold needed_list. apply filter_ext_in. intros p Hp. apply in_seq in Hp. apply Hpres. lia. }
+  rewrite He.
+  destruct (2 <=? length L) eqn:E2.
+  - apply Nat.leb_le in E2. apply needed_count_many; assumption.
+  - apply Nat.leb_gt in E2. destruct (c_has_zero cf) eqn:Ez; cbn [andb].
+    + destruct (length L =? 1) eqn:E1.
+      * apply Nat.eqb_eq in E1. apply needed_count_zero_singleton; auto.
+      * apply Nat.eqb_neq in E1. apply needed_count_none; [assumption|]. left. lia.
+    + apply needed_count_none; [assumption|]. destruct (length L) as [|[|m]]; [left; reflexivity|right; auto|lia].
+Qed.
+
+(* ... for every state the invariant holds of, i.e. (reduce_eq_fold_cycle) after every evaluated cycle *)
+Lemma state_combiner_count f cf st s vals : pub_inv f cf st s vals ->
+  combiner_count s =
+    if 2 <=? length (r_leaves s) then length (r_leaves s) - 1
+    else if c_has_zero cf && (length (r_leaves s) =? 1) then 1 else 0.
+Proof.
+  intros [k [_ [[T1 T2 T3 T4 T5] _]]]. unfold combiner_count.
+  change (fun oc : option comb => match oc with Some _ => true | None => false end) with (@is_some comb).
+  apply (combiner_count_number cf (r_leaves s) k (r_combs s) T2 T3 T4).
+Qed.
